@@ -19,12 +19,14 @@ iv/trim      for each zero/non-zero pattern the trim regex - read from the real 
 from __future__ import annotations
 
 import itertools
+import os
 import re
 
 import z3
 
 from ..driver import run_function, tags
 from ..front import repo
+from ..state import Unsupported
 from ..oblig import PROVED, REFUTED, UNKNOWN, UNSUPPORTED, Obligation
 from ..symex import Exec
 from ..values import B, Dyn, I, IteA, IteV, K, Lit, Obj, OpA, S, Sym
@@ -498,8 +500,43 @@ def trim_vcs(pattern_src: str, verified_formats: set):
     return obs
 
 
+def bounded_standin(why):
+    """the interval code is outside the executor's reach (e.g. the trim is no longer a regular-expression
+    substitution): a bounded exhaustive check of the real function stands in - labelled bounded, never proved"""
+    import json
+    import subprocess
+    from ..main import REPLAY_PY
+    from ..oblig import BOUNDED_OK, VERIF
+    try:
+        pr = subprocess.run([REPLAY_PY, os.path.join(VERIF, "replaylib", "batch.py")], input=json.dumps([["interval", []]]),
+                            capture_output=True, text=True, timeout=1500, env=dict(os.environ, PYTHONDONTWRITEBYTECODE="1"))
+        w = json.loads(pr.stdout)[0]
+    except Exception as e:
+        return [Obligation(PROP, "terms.Interval|iv/bounded", "iv/bounded", "terms.Interval.get_sql", UNKNOWN,
+                           reason=f"{why}; bounded check failed to run: {e!r}")]
+    bound = ("all component tuples over {0,3,10,205}^7 x both signs x 6 dialect contexts parsed back with the "
+             "designator's layout; shared object across dialects; large components; quarters/weeks")
+    if w:
+        return [Obligation(PROP, "terms.Interval|iv/bounded", "iv/bounded", "terms.Interval.get_sql", REFUTED,
+                           detail=f"bounded check of the real function ({bound})", reason=f"{why}; failing input: {w}",
+                           bounded=bound, backend="bounded-exhaustive",
+                           witness={"family": "call", "oracle": "interval", "args": []})]
+    return [Obligation(PROP, "terms.Interval|iv/bounded", "iv/bounded", "terms.Interval.get_sql", BOUNDED_OK,
+                       detail=f"bounded check of the real function ({bound})", reason=why, bounded=bound,
+                       backend="bounded-exhaustive")]
+
+
 def generate(tier="quick"):
-    obs = check_all(None)
+    try:
+        obs = check_all(None)
+        unsup = [o for o in obs if not isinstance(o, tuple) and o.status == UNSUPPORTED]
+        crashed = [o for o in obs if isinstance(o, tuple) and "Unsupported" in str(o[-1])]
+        if unsup or crashed:
+            why = (unsup[0].reason if unsup else str(crashed[0][-1]).strip().splitlines()[-1])[:300]
+            obs = [o for o in obs if not isinstance(o, tuple) and o.status != UNSUPPORTED] + \
+                bounded_standin(f"outside the executor's subset: {why}")
+    except Unsupported as e:
+        obs = bounded_standin(f"outside the executor's subset: {e}")
     return obs, {"functions": ["pypika_tortoise.terms.Interval.__init__", "pypika_tortoise.terms.Interval.get_sql"],
                  "assumptions": ["axiom R1: Python's re.sub removes, scanning left to right, the leftmost match of the "
                                  "first alternative that matches (greedy); cross-checked bounded against CPython",
